@@ -1,6 +1,51 @@
 import PeptVerif.Lemmas.SpansSeq
 import PeptVerif.Lemmas.RegexLite
 /-! C06 helper lemmas: zero-width regex rules applied to pieces of a text are local. Core Lean only. -/
+namespace RegexLite
+
+theorem matchItems_consumeZW (cls : List Char) (zw : Pattern) (hz : ∀ it ∈ zw, it.zeroWidth = true)
+    (before : List Char) (c : Char) (rest : List Char) :
+    matchItems (.consume cls :: zw) before (c :: rest) =
+      if cls.contains c = true ∧ holdsAt zw (some c) rest.head? = true then some 1 else none := by
+  simp only [matchItems, matchItems_zeroWidth zw hz, List.head?_cons]
+  by_cases h1 : c ∈ cls <;> by_cases h2 : holdsAt zw (some c) rest.head? = true <;> simp [h1, h2]
+
+theorem mem_sitesGo_consumeZW (cls : List Char) (zw : Pattern) (hz : ∀ it ∈ zw, it.zeroWidth = true) (i : Nat)
+    (before after : List Char) (x : Nat) :
+    x ∈ sitesGo (.consume cls :: zw) i before after ↔
+      ∃ k, ∃ h : k < after.length, x = i + k + 1 ∧ cls.contains after[k] = true ∧
+        holdsAt zw (some after[k]) after[k + 1]? = true := by
+  induction after generalizing i before with
+  | nil => simp [sitesGo, matchItems]
+  | cons c rest ih =>
+    simp only [sitesGo, List.mem_append, ih, matchItems_consumeZW cls zw hz]
+    constructor
+    · rintro (h | ⟨k, hk, rfl, hh⟩)
+      · by_cases hc : cls.contains c = true ∧ holdsAt zw (some c) rest.head? = true
+        · rw [if_pos hc] at h
+          simp at h
+          refine ⟨0, by simp, by omega, by simpa using hc.1, ?_⟩
+          have := hc.2
+          simpa [List.head?_eq_getElem?] using this
+        · rw [if_neg hc] at h
+          simp at h
+      · exact ⟨k + 1, by simp; omega, by omega, by simpa using hh⟩
+    · rintro ⟨k, hk, rfl, hh⟩
+      cases k with
+      | zero =>
+        left
+        have hc : cls.contains c = true ∧ holdsAt zw (some c) rest.head? = true := by
+          refine ⟨by simpa using hh.1, ?_⟩
+          have := hh.2
+          simpa [List.head?_eq_getElem?] using this
+        rw [if_pos hc]
+        simp
+      | succ k =>
+        right
+        exact ⟨k, by simp at hk; omega, by omega, by simpa using hh⟩
+
+end RegexLite
+
 namespace Spans
 open RegexLite
 
@@ -39,9 +84,8 @@ theorem ruleSites_flatMap {α} (l : List α) (f : α → List Pattern) (t : List
   unfold ruleSites
   rw [List.flatMap_assoc]
 
-theorem holdsAt_startSafe (p : Pattern) (h : startSafe p = true) (next : Option Char) :
-    holdsAt p none next = false := by
-  unfold startSafe at h
+theorem holdsAt_of_behind (p : Pattern) (h : (p.any fun it => match it with | .behind _ => true | _ => false) = true)
+    (next : Option Char) : holdsAt p none next = false := by
   rw [List.any_eq_true] at h
   obtain ⟨it, hit, hb⟩ := h
   unfold holdsAt
@@ -59,10 +103,72 @@ theorem holdsAt_endSafe (p : Pattern) (h : endSafe p = true) (prev : Option Char
   refine ⟨it, hit, ?_⟩
   cases it <;> simp_all [Item.holds]
 
-/-- a config whose rules are zero-width is a local stage on every text, if no piece hits the shortcut -/
+/-- shape of a local rule -/
+theorem localRule_cases (p : Pattern) (h : localRule p = true) :
+    (∃ cls zw, p = .consume cls :: zw ∧ ∀ it ∈ zw, it.zeroWidth = true) ∨
+      ((∀ it ∈ p, it.zeroWidth = true) ∧ cutsAt p = holdsAt p) := by
+  cases p with
+  | nil => right; exact ⟨by simp, by funext a b; simp [cutsAt]⟩
+  | cons it ps =>
+    cases it with
+    | consume cls =>
+      left; refine ⟨cls, ps, rfl, ?_⟩
+      simpa [localRule, List.all_eq_true] using h
+    | behind c => right; exact ⟨by simpa [localRule, List.all_eq_true] using h, by funext a b; simp [cutsAt]⟩
+    | ahead c => right; exact ⟨by simpa [localRule, List.all_eq_true] using h, by funext a b; simp [cutsAt]⟩
+    | aheadNot c => right; exact ⟨by simpa [localRule, List.all_eq_true] using h, by funext a b; simp [cutsAt]⟩
+    | notAhead c => right; exact ⟨by simpa [localRule, List.all_eq_true] using h, by funext a b; simp [cutsAt]⟩
+
+/-- a local rule cuts at `x` iff `cutsAt` holds for the two residues adjacent to `x` -/
+theorem mem_sites_local (p : Pattern) (h : localRule p = true) (s : List Char) (x : Nat) :
+    x ∈ sites p s ↔ x ≤ s.length ∧ cutsAt p (if x = 0 then none else s[x - 1]?) s[x]? = true := by
+  rcases localRule_cases p h with ⟨cls, zw, rfl, hz⟩ | ⟨hz, hc⟩
+  · unfold sites
+    rw [mem_sitesGo_consumeZW cls zw hz]
+    simp only [Nat.zero_add, cutsAt]
+    constructor
+    · rintro ⟨k, hk, rfl, h1, h2⟩
+      refine ⟨by omega, ?_⟩
+      have : ¬ k + 1 = 0 := by omega
+      simp only [this, if_false, Nat.add_sub_cancel, List.getElem?_eq_getElem hk, h1, h2, Bool.and_self]
+    · rintro ⟨hx, hcut⟩
+      cases x with
+      | zero => simp at hcut
+      | succ k =>
+        have hk : k < s.length := by omega
+        have : ¬ k + 1 = 0 := by omega
+        simp only [this, if_false, Nat.add_sub_cancel, List.getElem?_eq_getElem hk, Bool.and_eq_true] at hcut
+        exact ⟨k, hk, rfl, hcut.1, hcut.2⟩
+  · rw [hc]; exact mem_sites_zeroWidth p hz s x
+
+theorem cutsAt_startSafe (p : Pattern) (hl : localRule p = true) (h : startSafe p = true) (next : Option Char) :
+    cutsAt p none next = false := by
+  rcases localRule_cases p hl with ⟨cls, zw, rfl, hz⟩ | ⟨hz, hc⟩
+  · simp [cutsAt]
+  · rw [hc]
+    apply holdsAt_of_behind
+    unfold startSafe at h
+    rw [List.any_eq_true] at h ⊢
+    obtain ⟨it, hit, hb⟩ := h
+    refine ⟨it, hit, ?_⟩
+    cases it <;> simp_all [Item.zeroWidth]
+    exact absurd (hz _ hit) (by simp)
+
+theorem cutsAt_endSafe (p : Pattern) (hl : localRule p = true) (h : endSafe p = true) (prev : Option Char) :
+    cutsAt p prev none = false := by
+  rcases localRule_cases p hl with ⟨cls, zw, rfl, hz⟩ | ⟨hz, hc⟩
+  · have hzw : endSafe zw = true := by
+      unfold endSafe at h ⊢
+      simpa using h
+    cases prev with
+    | none => simp [cutsAt]
+    | some c => simp [cutsAt, holdsAt_endSafe zw hzw]
+  · rw [hc]; exact holdsAt_endSafe p h prev
+
+/-- a config whose rules are local rules is a local stage on every text, if no piece hits the shortcut -/
 theorem localStage_toStage (text : List Char) (c : EnzymeConfig)
     (hplain : c.mc = 0 ∧ c.semi = false ∧ c.complete = true)
-    (hzw : ∀ p ∈ c.regex, ∀ it ∈ p, it.zeroWidth = true) (hns : StageShortcutFree text c) :
+    (hzw : ∀ p ∈ c.regex, localRule p = true) (hns : StageShortcutFree text c) :
     LocalStage (text.length : Nat) (c.toStage text) where
   plain := hplain
   bounds := by
@@ -87,7 +193,7 @@ theorem localStage_toStage (text : List Char) (c : EnzymeConfig)
       have hkx : k = x := by omega
       subst hkx
       refine ⟨p, hp, a + k, ?_, by omega⟩
-      rw [mem_sites_zeroWidth p (hzw p hp)] at hk ⊢
+      rw [mem_sites_local p (hzw p hp)] at hk ⊢
       have h1 : ¬ k = 0 := by omega
       have h2 : ¬ a + k = 0 := by omega
       simp only [h1, h2, if_false] at hk ⊢
@@ -99,7 +205,7 @@ theorem localStage_toStage (text : List Char) (c : EnzymeConfig)
       have hkx : k = a + x := by omega
       subst hkx
       refine ⟨p, hp, x, ?_, rfl⟩
-      rw [mem_sites_zeroWidth p (hzw p hp)] at hk ⊢
+      rw [mem_sites_local p (hzw p hp)] at hk ⊢
       have h1 : ¬ x = 0 := by omega
       have h2 : ¬ a + x = 0 := by omega
       simp only [h1, h2, if_false] at hk ⊢
@@ -116,7 +222,7 @@ theorem localStage_toStage (text : List Char) (c : EnzymeConfig)
 /-- syntactic sufficient condition: all rules of the config have a look-behind, or all have a positive
 look-ahead — then no piece is cut at both of its ends, so the shortcut cannot fire on a piece -/
 theorem stageShortcutFree_of_safe (text : List Char) (c : EnzymeConfig)
-    (hzw : ∀ p ∈ c.regex, ∀ it ∈ p, it.zeroWidth = true)
+    (hzw : ∀ p ∈ c.regex, localRule p = true)
     (hsafe : (∀ p ∈ c.regex, startSafe p = true) ∨ (∀ p ∈ c.regex, endSafe p = true)) :
     StageShortcutFree text c := by
   intro b hb a hab hlen
@@ -135,17 +241,17 @@ theorem stageShortcutFree_of_safe (text : List Char) (c : EnzymeConfig)
     obtain ⟨p, hp, k, hk, hk0⟩ := h0
     have : k = 0 := by omega
     subst this
-    rw [mem_sites_zeroWidth p (hzw p hp)] at hk
+    rw [mem_sites_local p (hzw p hp)] at hk
     simp only [if_true] at hk
-    rw [holdsAt_startSafe p (hs p hp)] at hk
+    rw [cutsAt_startSafe p (hzw p hp) (hs p hp)] at hk
     simp at hk
   · have hm := hall ((b : Int) - a) (by omega) (by omega)
     rw [mem_sortDedup, mem_ruleSites] at hm
     obtain ⟨p, hp, k, hk, hkm⟩ := hm
     have : k = b - a := by omega
     subst this
-    rw [mem_sites_zeroWidth p (hzw p hp)] at hk
-    rw [getElem?_pieceText_end text a b (by omega) (by omega), holdsAt_endSafe p (hs p hp)] at hk
+    rw [mem_sites_local p (hzw p hp)] at hk
+    rw [getElem?_pieceText_end text a b (by omega) (by omega), cutsAt_endSafe p (hzw p hp) (hs p hp)] at hk
     simp at hk
 
 end Spans
